@@ -120,6 +120,25 @@ func (t *RTPTransceiver) setCodecPreferencesFromRemoteDescription(media *sdp.Med
 				leftCodecs,
 			)
 			if matchType == matchFilter {
+				// A partial match means different fmtp parameters, so this codec must not take over the
+				// payload type of the first codec it happens to match: once negotiated, the media
+				// engine's codecs are the remote's own codecs, prefer the entry with this codec's own
+				// payload type. (Exact matches are still mapped to the first equivalent codec.)
+				if matchFilter == codecMatchPartial {
+					for _, leftCodec := range leftCodecs {
+						if leftCodec.PayloadType != remoteCodec.PayloadType {
+							continue
+						}
+						if sameCodec, sameType := codecParametersFuzzySearch(
+							remoteCodec, []RTPCodecParameters{leftCodec},
+						); sameType == matchType {
+							matchCodec = sameCodec
+						}
+
+						break
+					}
+				}
+
 				payloadMapping[remoteCodec.PayloadType] = matchCodec.PayloadType
 
 				remoteCodec.PayloadType = matchCodec.PayloadType
